@@ -15,10 +15,20 @@ namespace ops {
 template<class X>
 struct ManIO;
 
+// std::vector<G> of N elements (a tag, so that two sizes of the same std::vector<G> model can be registered)
+template<class G, int N>
+struct VecN {};
+
+template<class G, int N>
+struct ManIO<VecN<G, N>>;
+
 template<class G>
-struct ManIO<std::vector<G>> {
+struct ManIO<std::vector<G>> : ManIO<VecN<G, 3>> {};
+
+template<class G, int N>
+struct ManIO<VecN<G, N>> {
   using M = std::vector<G>;
-  static constexpr int n = 3;
+  static constexpr int n = N;
   static int dofhint() { return n * dof_of<G>(); }
   static M* make(In& in, int index) {
     auto* m = new M;
